@@ -225,6 +225,9 @@ func runCheck(id, tier string, seed int64, only string) int {
 
 	// ---- replay files
 	rdir := filepath.Join(verifRoot, "replays", id)
+	if alt := os.Getenv("ZSYM_OUT_DIR"); alt != "" {
+		rdir = filepath.Join(alt, "replays", id)
+	}
 	os.RemoveAll(rdir)
 	os.MkdirAll(rdir, 0755)
 	type pending struct {
@@ -617,8 +620,12 @@ func writeEvidence(id, tier string, seed int64, t0 time.Time, reports []*interp.
 		"violations":  len(violLines),
 	}
 	data, _ := json.MarshalIndent(ev, "", " ")
-	os.MkdirAll(filepath.Join(verifRoot, "evidence"), 0755)
-	os.WriteFile(filepath.Join(verifRoot, "evidence", id+".json"), data, 0644)
+	evDir := filepath.Join(verifRoot, "evidence")
+	if alt := os.Getenv("ZSYM_OUT_DIR"); alt != "" {
+		evDir = filepath.Join(alt, "evidence") // background experiments only
+	}
+	os.MkdirAll(evDir, 0755)
+	os.WriteFile(filepath.Join(evDir, id+".json"), data, 0644)
 }
 
 func max1(n int) int {
